@@ -261,7 +261,7 @@ class Check:
         }
         with open(os.path.join(VERIF, "evidence", self.pid + ".json"), "w") as f:
             json.dump(ev, f, indent=1)
-        for v in self.violations[:20]:
+        for v in self.violations[:6]:
             log("  violation: " + v["what"])
         if self.violations:
             log("VIOLATION property=%s replay=%s" % (self.pid, self.violations[0]["replay"]))
